@@ -93,7 +93,9 @@ func nilHandlers(in *kit.Instance, nilResult bool) {
 		}
 		return []mcp.ResourceContents{}, nil
 	})
-	h := func(ctx context.Context, req *mcp.ReadResourceRequest) ([]mcp.ResourceContents, error) { return nil, nil }
+	h := func(ctx context.Context, req *mcp.ReadResourceRequest) ([]mcp.ResourceContents, error) {
+		return nil, nil
+	}
 	t := mcp.NewResourceTemplate("tmpl://{id}", "tmpl")
 	switch s := in.Srv().(type) {
 	case *mcp.Server:
@@ -205,7 +207,7 @@ func sparseKind(r *vh.Run, kind kit.Kind) {
 				r.Violation(fmt.Sprintf("C03|registry=%s|%s|%s|%s", v.name, rq.Label, kind, sym), fmt.Sprintf("%s with %s: %s: %s %v", kind, v.name, rq.Label, sym, gen.ShapeProblems(rq, o)), wit)
 			} else {
 				r.Distinct(fmt.Sprintf("%s|registry=%s|%s|%s", kind, v.name, rq.Label, o.Class))
-				if o.Class == "result" && (rq.Label == "resources/list" || rq.Label == "tools/list") && kind == kit.SJSON {
+				if o.Class == "result" && rq.Label == "resources/list" && kind == kit.SJSON && v.name == "nothing-registered" {
 					r.Sample(map[string]interface{}{"kind": kind, "registry": v.name, "label": rq.Label, "frames": o.Frames})
 				}
 			}
